@@ -24,14 +24,17 @@ CLAIMED = {
     ),
     "C14": dict(
         category="model_checking",
-        text="Document.tla's observations are functions of string BYTES only (no storage attribute exists in the "
-             "model). TLC generates every transition of a string-heavy bounded instance plus long spec-annotated "
+        text="Document.tla's observations are functions of string BYTES only; the one storage attribute of the model is "
+             "what the API reports on purpose, JsonString::isLinked() (values \"s\" copied / \"l\" kept by address): a string "
+             "set through a copying kind is stored by copy whatever the target held before (compared in the mixed-kind "
+             "runs, dropped when one kind is forced). TLC generates every transition of a string-heavy bounded instance plus long spec-annotated "
              "behaviours; each is replayed on the library once per string kind (literal/const char*, char*, char[N], "
              "std::string, string_view, JsonString copied/linked, Arduino String, flash string) forced on every "
              "string argument of every entry point (set/add/operator[]/remove/lookup/compare), and with random "
              "mixtures; source buffers of copied kinds are overwritten after each call. Observation includes "
-             "serialization, as<integer>/as<double> of strings, is<T>, comparisons and lookups by every key kind.",
-        design_ref="DESIGN.md §4 C14",
+             "serialization, as<integer>/as<double> of strings, is<T>, comparisons (equality and ordering against probe "
+             "texts must not depend on the operand kind) and lookups by every key kind.",
+        design_ref="DESIGN.md §4 C14, §9.2",
         note="String alphabet is a fixed table (empty, NUL inside, >=0x80, numeric-looking, prefixes of one "
              "another); zero-terminated kinds cannot carry NUL. Arduino/flash kinds are the repository's fakes.",
         technique="TLA+ spec + TLC generation, replay per string-kind schedule",
@@ -46,10 +49,13 @@ CLAIMED = {
              "allocated once and released once through the allocator that produced it; no allocator/pool/string "
              "event outside a mutating public call; after each call the live blocks of each allocator are exactly "
              "the pools, tables and strings of the documents using it (clear, destruction, move, swap, assignment); "
-             "equal copied strings stored once with refs = users; slots in use = reachable slots.",
-        design_ref="DESIGN.md §2.3, §4 C06",
-        note="Fault-free executions only (C05 covers failures). The deserialization memory bound is checked in "
-             "C03's reader harness, not here. Trusted: hooks emit at the right points (demonstrated by mutation), "
+             "equal copied strings stored once with refs = users; slots in use = reachable slots. The deser operation "
+             "also runs as deserializeMsgPack of the same value; one build has ARDUINOJSON_AUTO_SHRINK=0. The "
+             "deserializers on their own (expected outcomes from JsonReader.tla / MsgPack.tla: malformed inputs, long "
+             "tokens, strings and keys on both sides of the longest storable string, MessagePack): empty ledger after "
+             "every run and the memory bound.",
+        design_ref="DESIGN.md §2.3, §4 C06, §9.6",
+        note="Fault-free executions only (C05 covers failures). Trusted: hooks emit at the right points (demonstrated by mutation), "
              "VerifAllocator, ASan for use-after-release.",
         technique="TLA+ spec + TLC model checking per geometry; trace validation of hook/allocator events",
     ),
@@ -100,18 +106,24 @@ for pid, text, ref in [
             "against a generator that spells random values as RFC 8259 texts and remembers what it meant; each text "
             "then goes through every input kind into every destination pre-state on several builds and must give the "
             "specification's code, value (strings byte-exact, integers exact, members in order, last duplicate wins) "
-            "and consumed bytes; every short token string is covered exhaustively.", "DESIGN.md §4 C01"),
+            "and consumed bytes; every short token string is covered exhaustively. Also: comments on comment-enabled "
+            "builds, a repeated key for every ordered pair of value kinds, objects whose string values are their own "
+            "keys, number literals up to the documented 63 characters.", "DESIGN.md §4 C01"),
     ("C03", "For ANY byte string the specifications (JsonReader.tla, MsgPack.tla) give the code, the document and the "
             "bytes that may be consumed. Seeded truncations, mutations, random bytes, huge announced lengths and the "
             "bounded-exhaustive alphabets are replayed through 10-14 input kinds (exact-size heap blocks, counted "
             "reads) on 7 builds; code/document/consumption must be identical across kinds and equal to the "
             "specification; afterwards the document is inspected, serialized, cleared and reused, and the memory "
-            "requested is bounded linearly in the input.", "DESIGN.md §4 C03"),
+            "requested is bounded linearly in the input. Also: strings and keys on both sides of the longest storable "
+            "string (MaxStr in JsonReader.tla), inputs whose slot demand sweeps across the addressable slots, "
+            "MessagePack under arbitrary filter documents, block-wise std::istream, container and integral-size "
+            "input overloads, both orders of the two options.", "DESIGN.md §4 C03"),
     ("C09", "MsgPack.tla's decoder is the model of MsgPackDeserializer and the definition of the format; TLC checks on "
             "every byte string of two header alphabets: prefixes give IncompleteInput/EmptyInput, 0xC1 and non-string "
             "keys give InvalidInput, results depend on consumed bytes only, Canon re-encoding round-trips. An "
             "independent encoder produces every legal encoding of random values (cross-checked with the spec), "
-            "prefixes and corruptions; replayed with USE_DOUBLE 0/1 and a small configuration.", "DESIGN.md §4 C09"),
+            "prefixes and corruptions (maps with repeated keys included); replayed with USE_DOUBLE 0/1 and a small "
+            "configuration.", "DESIGN.md §4 C09"),
     ("C10", "JsonReader.tla is the executable description of the accepted dialect; TLC explores every string over 7 "
             "symbol alphabets (structure, strings, numbers, keywords, comments, \\u escapes, tokens) for limits 0..2, "
             "checks the classification properties on the model and emits every (input, result); plus seeded mutants. "
@@ -120,15 +132,21 @@ for pid, text, ref in [
     ("C11", "Skip-mode machines (JSON and MessagePack) vs the declarative Project(value, filter): TLC checks equality "
             "for every explored input and 12-13 filters; the feed oracle emits both for seeded (input, filter) pairs; the "
             "library is run with Filter(...) and must agree, must not crash on any input, and must not request more "
-            "memory (total and peak) than the unfiltered run of the same input.", "DESIGN.md §4 C11"),
+            "memory (total and peak) than the unfiltered run of the same input (compared when the unfiltered run "
+            "completes). Also on the all-options build (comments, NaN, Infinity inside kept and discarded parts) and for "
+            "a repeated key under every shape of filter entry.", "DESIGN.md §4 C11"),
     ("C15", "Both reader specs track the deepest recursion level (parse and skip mode): TLC checks level <= limit and "
             "nesting() <= limit on every explored input; bracket/header families (n = L, L+1, L+2, 5000; closed and "
             "unclosed; with discarding filters; L up to 255) are replayed, the spec gives the expected code, and the "
-            "stack consumed for 5000 levels must not exceed that for L+1 levels.", "DESIGN.md §4 C15"),
+            "stack consumed for 5000 levels must not exceed that for L+1 levels; inputs that grow in length without "
+            "depth (elements, members, blanks, consecutive comments) must not consume more stack either.",
+     "DESIGN.md §4 C15"),
     ("C16", "Both reader specs return the number of bytes taken from the input; TLC checks that results depend on the "
             "consumed prefix only; the feed oracle computes what each successive call returns on concatenated "
             "documents (arbitrary whitespace; back-to-back MessagePack); replayed on std::istream, byte-wise and "
-            "block-wise readers and the Arduino Stream fake, comparing documents and stop positions.",
+            "block-wise readers, a std::istream delivering a few bytes per refill and the Arduino Stream fake, comparing "
+            "documents and stop positions; sessions with a filter; a single-precision build; containers on both sides "
+            "of 65536 entries followed by another document (expected calls from the encoder: beyond TLC's sequences).",
      "DESIGN.md §4 C16"),
 ]:
     CLAIMED[pid] = dict(category="model_checking", text=text, design_ref=ref, note=READER_NOTE, technique=READER_TECH)
@@ -142,17 +160,21 @@ for pid, text, ref in [
     ("C02", "WriterTrace.tla (Focus C02): the compact text parsed by JsonReader.tla in strict RFC 8259 mode denotes the "
             "document (strings byte-exact, integers digit-exact via a TLA+ decimal conversion, members in order, raw "
             "values verbatim, non-finite as null), pretty = compact modulo insignificant whitespace, identical bytes "
-            "and counts on char buffer / char[N] / std::string / std::ostream / custom writer / Arduino String / Print, "
-            "measureJson*, and the buffer law for every capacity 0..length+2 with guard bytes.", "DESIGN.md §4 C02"),
+            "and counts on char buffer / char, unsigned char, signed char [N] for every N around the length / std::string / "
+            "seekable, non-seekable and pre-filled std::ostream / custom writer / Arduino String / Print, measureJson*, "
+            "and the buffer law for every capacity 0..length+2 with guard bytes; also on a single-precision build.",
+     "DESIGN.md §4 C02"),
     ("C07", "WriterTrace.tla (Focus C07) on recorded round trips: MessagePack round trip byte-identical, JSON round trip "
             "equivalent, JSON->document->MessagePack->document equal to JSON->document; MsgPackMC checks at model "
-            "level that Canon(Decode(e)) re-decodes to the same value and is stable for every explored byte string.",
+            "level that Canon(Decode(e)) re-decodes to the same value and is stable for every explored byte string. "
+            "Round trips go through std::string and through caller-supplied buffers; also on a single-precision build.",
      "DESIGN.md §4 C07"),
     ("C08", "WriterTrace.tla (Focus C08): MsgPack.tla's decoder (the format definition, model-checked for prefix/Canon "
             "properties) accepts the recorded bytes as exactly one object equal to the document (integers with sign "
             "over the int64/uint64 range, strings byte-exact, bin/ext verbatim, floats bit-exact or integer encoding "
-            "of an integral value), counts = measureMsgPack, buffer law, header widths at 31/32, 255/256, 15/16 and "
-            "65535/65536 from the specification's ladder.", "DESIGN.md §4 C08"),
+            "of an integral value: FloatEncoding), counts = measureMsgPack, buffer law, string / array / map headers the "
+            "narrowest for their length (TightHeaders), bin / ext values set through MsgPackBinary / MsgPackExtension.",
+     "DESIGN.md §4 C08"),
 ]:
     CLAIMED[pid] = dict(category="model_checking", text=text, design_ref=ref, note=WRITER_NOTE, technique=WRITER_TECH)
 
